@@ -67,7 +67,7 @@ def floors(tier):
          "runs_opts_eigs_without_which_on_positive_spectrum": 10 * k, "opts_eigs:without-which": 20 * k,
          "opts_eigs:with-which": 20 * k, "opts_eigs:None": 10 * k, "H_shifted_by_positive_constant": 15 * k,
          "form:direct": 20 * k, "form:step": 10 * k, "omitted:all": 5 * k, "omitted:none": 20 * k, "iterator_vs_direct_compared": 8 * k,
-         "H_special:zero": 2 * k, "H_special:identity": k, "H_special:scaled": 3 * k, "start:scaled": 10 * k, "N=1": 5 * k,
+         "H_special:zero": k, "H_special:identity": k, "H_special:scaled": 3 * k, "start:scaled": 10 * k, "N=1": 5 * k,
          "N=2": 10 * k, "must_reject_ok": 3 * k, "max_sweeps=0_cases": 1 * k, "project=[]": 3 * k,
          "2site_with_empty_opts_svd": 3 * k, "penalised2_premise_met": 2 * k,
          "penalised_runs_opts_eigs_without_which": (5 if tier == "thorough" else 1),
